@@ -9,6 +9,11 @@ import Operon.Model.AtpConc
     act <thread> conv <id> <n>
     act <thread> withdraw <id> <n> <cur>
     act <thread> deposit <id> <n> <cur>            -> <store> (the locked store when the region ends)
+    rate <id> <num> <den>                          -> ok             (constructor argument regeneration_rate = num/den: the
+                                                                      store has a background regeneration thread)
+    act <thread> tick <id>                         -> <store>        (one pass of that thread's loop: regenerate(int(rate)))
+    pre <call>                                     -> <store>        (a call made before the threads start; calls as in the
+                                                                      `thread` lines: consume | regen | conv | xfer | tick)
     final <nthreads> <nstores>                     -> all returns | all stores
   <store> = atp gtp nadh debt consumed state -/
 open Operon Operon.Proto Operon.Atp Operon.AtpConc Operon.Lock
@@ -26,6 +31,7 @@ def floatCls : Classifier := fun r p =>
 structure DSt where
   stores : List Store := []
   obs : List (Nat × String × String) := []      -- (store, kind always|state, state name)
+  rates : List (Nat × Nat × Nat) := []          -- (store, num, den) of regeneration_rate
   w : World := ⟨fun _ => Store.fresh 0 0 0 0 0 1, fun _ => {}⟩
 
 def stateOf : String → MState
@@ -66,8 +72,35 @@ def parseAct : List String → Option Act
   | ["deposit", i, n, cur] => some (.deposit (natD i) (natD n) (curOf cur))
   | _ => none
 
+/-- `int(regeneration_rate)` of store `j` (0 when none was configured) -/
+def rateOf (l : List (Nat × Nat × Nat)) (j : Nat) : Nat :=
+  match l.find? (fun e => e.1 == j) with
+  | some (_, n, d) => n / d
+  | none => 0
+
+/-- the critical regions of one API call, in order (`tick` = one pass of the background loop) -/
+def parseCall (rates : List (Nat × Nat × Nat)) : List String → Option (List Act)
+  | ["xfer", i, j, n, cur] => some (Call.acts (.transfer (natD i) (natD j) (natD n) (curOf cur)))
+  | ["tick", i] => some [tickAct (natD i) (rateOf rates (natD i))]
+  | toks => (parseAct toks).map fun a => [a]
+
 def step (d : DSt) (toks : List String) : DSt × String :=
   match toks with
+  | ["rate", i, n, m] =>
+    if natD m = 0 then (d, "bad-op") else
+    ({ d with rates := (natD i, natD n, natD m) :: d.rates.filter (fun e => e.1 != natD i) }, "ok")
+  | ["act", t, "tick", i] =>
+    let a := tickAct (natD i) (rateOf d.rates (natD i))
+    let w' := applyAct floatCls (obsOf d.obs) d.w (natD t) a
+    ({ d with w := w' }, showStore (w'.st a.lock))
+  | "pre" :: rest =>
+    match parseCall d.rates rest with
+    | some (a :: as) =>
+      -- thread number 1000000 is nobody's: the prelude's return values are not part of the final observation
+      let w' := (a :: as).foldl (fun w x => applyAct floatCls (obsOf d.obs) w 1000000 x) d.w
+      let w'' : World := ⟨w'.st, fun u => if u = 1000000 then {} else w'.locs u⟩
+      ({ d with w := w'' }, showStore (w''.st (as.getLast?.getD a).lock))
+    | _ => (d, "bad-op")
   | ["new", b, g, n, md] =>
     let s := Store.fresh (natD b) (natD g) (natD n) (natD md) 1 10
     let id := d.stores.length
